@@ -181,7 +181,7 @@ inductive Instr
   | logicCond (c : Logic) (l r : Nat) (reg : Nat)
   | ifCondLogic (lBegin lEnd : Name) (reg : Nat)
   | fnArg (v : Value) (p : FuncParam)
-  | ext (tag : Nat) (reg : Nat)
+  | ext (tag : Nat) (ty : PrimTy) (reg : Nat)
   deriving DecidableEq, Repr, Inhabited
 
 /-- `StateErrorKind` -/
